@@ -35,7 +35,7 @@ func (v otrV3) isFragmented(data []byte) bool {
 }
 
 func parseItag(s []byte) (uint32, error) {
-	v, err := strconv.ParseInt(string(s), 16, 0)
+	v, err := strconv.ParseUint(string(s), 16, 32)
 	if err != nil {
 		return 0, err
 	}
